@@ -345,6 +345,14 @@ theorem C16_normalizer_write (N : Str → Str) (env : Env) (p : XmlParams) (t : 
         serializeXmlWriteWith (normEscapers N) env p t start = (s, .ok ())) :=
   ⟨(C16_write _ env p t start).1, (C16_write _ env p t start).2.1⟩
 
+/-- … and `serialize_xml_write_with_normalizer`, called directly, fails exactly when the string entry point
+    fails, with the same error (what was written before the failure stays in the sink: the driver's
+    `ser xml_write_norm` line compares those bytes with the implementation's). -/
+theorem C16_normalizer_write_fail (N : Str → Str) (env : Env) (p : XmlParams) (t : Tree) (start : Path) (e : XotError) :
+    (serializeXmlWriteWith (normEscapers N) env p t start).2 = .err e ↔
+      serializeXmlStringWith (normEscapers N) env p t start = .err e :=
+  (C16_write _ env p t start).2.2 e
+
 /-- The event stream of the normalised tree is the event stream of the tree with `N` applied to the strings of
     the `Text` and `Attribute` events: same events, same nodes, same order. -/
 theorem C16_normalizer_events (N : Str → Str) (t : Tree) (start : Path) :
